@@ -126,6 +126,57 @@ def closure(mod: str) -> list[str]:
     return seen
 
 
+def do_replay(prop: str, path: str) -> int:
+    """Re-execute the case of a replay file on the implementation (and the model, for gateway histories)."""
+    with open(path, encoding="utf-8") as f:
+        rep = json.load(f)
+    case = rep.get("case") or {}
+    print(f"replay of {path}: kind={rep.get('kind')} property={rep.get('property')}")
+    if rep.get("kind") == "no-failing-input-found":
+        print("no failing input was found; what no longer checks:")
+        for u in rep.get("unchecked", []):
+            print("  -", u[:400])
+        for t in rep.get("failed_theorems", []):
+            print("  theorem:", t)
+        return 0
+    print("what:", case.get("what"))
+    if "history" in case:
+        from . import gw
+        h = gw.Hist.from_json(case["history"])
+        impl = gw.run_impl(h)
+        try:
+            outs = lib.run_model(gw.model_lines(h))
+            model = gw.model_obs(h, outs)
+        except Exception as err:  # noqa: BLE001
+            model = None
+            print("model not available:", str(err)[:200])
+        for i, op in enumerate(h.ops):
+            o = impl[i + 1]
+            print(f"step {i + 1}: {op}")
+            print("   impl :", o["out"], [w for w in o["writes"]])
+            if model:
+                print("   model:", model[i + 1][0])
+        print("final state (impl):", impl[-1]["state"])
+        return 0
+    print(json.dumps(case, indent=1, default=str)[:4000])
+    print("(this engine's cases are replayed by re-running the check: the corpus and the seed reproduce them)")
+    return 0
+
+
+def body_changes() -> list[str]:
+    """Handler bodies whose AST differs from the snapshot the model was written against (informational)."""
+    snap = os.path.join(VERIF, "tools", "body_hashes.json")
+    cur = os.path.join(VERIF, "tools", "tables.json")
+    try:
+        with open(snap, encoding="utf-8") as f:
+            a = json.load(f)
+        with open(cur, encoding="utf-8") as f:
+            b = json.load(f).get("bodyHashes", {})
+    except (OSError, ValueError):
+        return []
+    return sorted(k for k in set(a) | set(b) if a.get(k) != b.get(k))
+
+
 def run(prop: str, tier: str, replay: str | None) -> int:
     t0 = time.time()
     seed = int(os.environ.get("VERIF_SEED", "0"))
@@ -241,6 +292,8 @@ def run(prop: str, tier: str, replay: str | None) -> int:
             lines.append(f"KNOWN-FINDING: property={prop} {known[sig]}")
     os.makedirs(os.path.join(VERIF, "replays"), exist_ok=True)
     replay_path = os.path.join(VERIF, "replays", f"{prop}-{tier}-{seed}.json")
+    if os.path.exists(replay_path):
+        os.unlink(replay_path)   # a stale replay of an earlier run must not survive a passing run
     if viol_new:
         with open(replay_path, "w", encoding="utf-8") as f:
             json.dump({"property": prop, "kind": "failing-input", "case": viol_new[0], "more": viol_new[1:10],
@@ -278,6 +331,7 @@ def run(prop: str, tier: str, replay: str | None) -> int:
         "extraction_ok": extraction_ok,
         "model_builds": model_ok,
         "leanchecker": report.get("leanchecker", "not run (quick tier)"),
+        "handler_bodies_changed_since_model_snapshot": body_changes(),
     }
     if corr is not None:
         cov.update({
@@ -332,6 +386,8 @@ def main() -> int:
     if args.prop not in REGISTRY:
         print(f"unknown property {args.prop}")
         return 2
+    if args.replay:
+        return do_replay(args.prop, args.replay)
     try:
         return run(args.prop, args.tier, args.replay)
     except subprocess.TimeoutExpired as err:
